@@ -31,14 +31,17 @@ let parse_op s : (z, z) op =
             | [k; v] -> TSet (z_of_dec k, z_of_dec v) | _ -> failwith "bad s")
   | 'r' -> TRem (z_of_dec rest) | 'g' -> TGet (z_of_dec rest) | 'm' -> TMem (z_of_dec rest)
   | 'z' -> TResize (nat_of_int (int_of_string rest))
-  | 'c' -> TSelfCopy
+  | 'c' | 'a' -> TSelfCopy
   | _ -> failwith ("bad op " ^ s)
 let kv_s (k, v) = z_to_dec k ^ ":" ^ z_to_dec v
+(* typed cases  t<ksize>.<vsize>;<hashspec> : element sizes (0 = builtin Int, 8 bytes); the model
+   adds the slot layout  L<step minus headers>.<reserved key bytes>.<reserved value bytes> *)
+let layout = ref ""
 let dump_model t =
   let sl = zt_slots t in
   let ss = List.map (function None -> "_" | Some (h, (k, v)) ->
       string_of_int (int_of_nat h + 1) ^ ":" ^ z_to_dec k ^ ":" ^ z_to_dec v) sl in
-  string_of_int (int_of_nat (zt_nitems t)) ^ ";" ^ String.concat "," ss ^ ";" ^
+  string_of_int (int_of_nat (zt_nitems t)) ^ ";" ^ !layout ^ String.concat "," ss ^ ";" ^
   String.concat "," (List.map kv_s (zt_iter t))
 let zcmp a b = if z_ltb a b then -1 else if z_ltb b a then 1 else 0
 let dump_spec m =
@@ -52,6 +55,19 @@ let () =
   read_lines (fun line ->
     match String.split_on_char '|' line with
     | [hs; ops] ->
+      let hs =
+        if String.length hs > 0 && hs.[0] = 't' then begin
+          let semi = String.index hs ';' in
+          let sizes = String.sub hs 1 (semi - 1) in
+          (match String.split_on_char '.' sizes with
+           | [a; b] ->
+             let sz x = let n = int_of_string x in if n = 0 then 8 else n in
+             let ks = nat_of_int (sz a) and vs = nat_of_int (sz b) in
+             layout := Printf.sprintf "L%d.%d.%d;" (int_of_nat (zt_slot_body ks vs))
+                         (int_of_nat (zt_size_round ks)) (int_of_nat (zt_size_round vs))
+           | _ -> failwith "bad sizes");
+          String.sub hs (semi + 1) (String.length hs - semi - 1)
+        end else (layout := ""; hs) in
       let hash = hash_of hs in
       let ops = List.filter (fun s -> s <> "") (String.split_on_char ' ' ops) in
       let init, ops = match ops with
